@@ -249,20 +249,56 @@ def classify(f: dict, c: dict) -> str:
     return what
 
 
+def _find_case(obj):
+    if isinstance(obj, dict):
+        if "case_seed" in obj and "mode" in obj:
+            return obj
+        for v in obj.values():
+            r = _find_case(v)
+            if r is not None:
+                return r
+    elif isinstance(obj, list):
+        for v in obj:
+            r = _find_case(v)
+            if r is not None:
+                return r
+    return None
+
+
 def replay(rep: dict) -> int:
+    """./check C13 --replay FILE : rebuild the stored case; show what the real code and the model do on it."""
     common.use_repo_source()
     from tools.corr import C01_real as R1
     from tools.corr import C13_real as R
 
-    print(json.dumps(rep, indent=1, default=str)[:4000])
-    inp = rep.get("input", {})
+    print(json.dumps(rep, indent=1, default=str)[:3000])
+    inp = _find_case(rep)
+    if inp is None:
+        return PROP.run("quick", int(rep.get("seed", 0)))
     corpus = R.load_corpus()
-    if "case_seed" in inp:
-        c = make_case(R1, R, corpus, inp["kind"], inp["mode"], inp["case_seed"], N_CASES["thorough"]["max_ops"], inp.get("corpus"))
-        bad = R.oracle_ratio(c["reaction"], c["tb"], c["ops"]) if inp["mode"] == "oracle" else []
-        print("replayed:", json.dumps({"ops": R.describe_ops(c["ops"]), "oracle_failures": bad[:4]}, indent=1, default=str))
-        return 1 if bad else 0
-    return PROP.run("quick", int(rep.get("seed", 0)))
+    c = None
+    for tier in ("quick", "thorough"):
+        c = make_case(R1, R, corpus, inp["kind"], inp["mode"], inp["case_seed"], N_CASES[tier]["max_ops"], inp.get("corpus"))
+        if R.describe_ops(c["ops"]) == [list(o) for o in inp.get("ops", R.describe_ops(c["ops"]))]:
+            break
+    covers = (rep.get("inferred_variant") or {}).get("selCoversComb", True)
+    out = {"ops": R.describe_ops(c["ops"]), "reaction": R1.describe(c["reaction"])}
+    code = 0
+    if inp["mode"] == "oracle":
+        bad = R.oracle_ratio(c["reaction"], c["tb"], c["ops"]) + R.oracle_defaults(c["reaction"])
+        out["oracle_failures"] = bad[:4]
+        code = 1 if bad else 0
+    else:
+        line = (R.hist_line if inp["mode"] == "hist" else R.form_line)(covers, c["reaction"], c["tb"], c["ops"])
+        reply = common.lean_run(DRIVER, line + "\n").strip().split("\n")[0]
+        if inp["mode"] == "hist":
+            real, lean = R.real_hist(c["reaction"], c["tb"], c["ops"]), R.parse_hist(reply)
+        else:
+            real, lean = R.real_form(c["reaction"], c["tb"], c["ops"])[0], R.parse_form(reply)
+        out["model_vs_real"] = "agree" if real == lean else short_diff(real, lean)
+        code = 0 if real == lean else 1
+    print("replayed:", json.dumps(out, indent=1, default=str))
+    return code
 
 
 PROP = C13Property()
